@@ -103,6 +103,15 @@ int ep_setup(Endpoint *ep, int side, Conn *c, const Plan *p, const CredSet *cs, 
 	}
 	ep->conn = calloc(1, sizeof(TLS_CONNECT));
 	if (!ep->conn) die("oom");
+	if (p->cred_mode & 8) {
+		/* the object is not fresh: it holds what an earlier connection (or the caller's stack) left in it, among it
+		 * unread plaintext.  tls_init() is the only thing between that and this connection. */
+		memset(ep->conn, 0xA5, sizeof(TLS_CONNECT));
+		ep->conn->data = ep->conn->databuf + 7;
+		ep->conn->datalen = 90;
+		ep->conn->enced_record_len = 333;
+		memset(ep->conn->client_seq_num, 0x11, 8); memset(ep->conn->server_seq_num, 0x22, 8);
+	}
 	if (tls_init(ep->conn, &ep->ctx) != 1) return -1;
 	if (tls_set_socket(ep->conn, c->fd[side]) != 1) return -1;
 	net_guard_array(ep->conn->enced_record, sizeof(ep->conn->enced_record), "TLS_CONNECT.enced_record");
@@ -184,6 +193,7 @@ static int do_write(Endpoint *ep, int dir, uint64_t n, uint64_t wchunk)
  * tampering proxy); the scenarios decide what an error means. */
 static int do_write(Endpoint *ep, int dir, uint64_t n, uint64_t wchunk);
 static struct { int on; uint64_t every, size, base, sent; } g_ack[2 * NET_MAX_CONN];
+static int p_proto(const Endpoint *ep) { return (int)ep->plan->proto; }
 
 static int read_until(Endpoint *ep, int dir, uint64_t target, uint64_t rbuf_max, int max_calls)
 {
@@ -228,6 +238,14 @@ static int read_until(Endpoint *ep, int dir, uint64_t target, uint64_t rbuf_max,
 		ep->got[dir] += got;
 		if (ep->recv_errs) ep->got_after_err += got;
 		sim_trace(EV_APP, -(int64_t)got, dir);
+		/* TLCP / TLS 1.2 document "receive all buffered data before sending": an application that tries anyway is
+		 * refused.  Try now and then (the refusal path is library code like any other); whatever the library answers,
+		 * the run goes on — had the byte gone out, the peer's stream check would see it. */
+		if (p_proto(ep) != P_TLS13 && ep->conn->datalen > 0 && rng_chance(&ep->rbuf, 1, 12)) {
+			size_t sent = 0;
+			uint8_t probe = '?';
+			ep->refused_sends += tls_send(ep->conn, &probe, 1, &sent) != 1;
+		}
 		/* acknowledged rounds: write back right away, even if the record is only partly consumed */
 		{
 			int slot = (int)(ep - g_ep);
